@@ -125,3 +125,251 @@ Proof.
   { destruct (sstate_eqb (sstate_ s) SProcessing) eqn:E; [|reflexivity]. apply sstate_eqb_spec in E. contradiction. }
   rewrite Es. destruct (N.eqb_spec offered 0) as [E|_]; [contradiction|]. reflexivity.
 Qed.
+
+(* ====================================================================================== *)
+(* C04: a completed flush ends on a byte boundary with everything emitted                  *)
+(* ====================================================================================== *)
+
+Definition all_ok (l : list answer) : Prop := forallb answer_ok l = true.
+
+Lemma outcome_inv_padding s s' : inject_byte_padding_block s = Done s' ->
+  sstate_ s' = sstate_ s /\ input_pos s' = input_pos s /\ last_flush_pos s' = last_flush_pos s
+  /\ oracle s' = oracle s /\ last_bytes_bits s' = 0.
+Proof.
+  unfold inject_byte_padding_block, write_at_cursor. intros H.
+  cbn [next_out upd_bits] in H.
+  destruct (next_out s) eqn:En; cbn [next_out upd_bits upd_out] in H; try rewrite En in H.
+  - match type of H with context [if ?c then _ else _] => destruct c end; try discriminate.
+    inversion H; subst s'; clear H. cbn. repeat split; reflexivity.
+  - match type of H with context [if ?c then _ else _] => destruct c end; try discriminate.
+    inversion H; subst s'; clear H. cbn. repeat split; reflexivity.
+  - match type of H with context [if ?c then _ else _] => destruct c end; try discriminate.
+    inversion H; subst s'; clear H. cbn. repeat split; reflexivity.
+Qed.
+
+Lemma inject_some s x s' x' : inject_flush_or_push_output s x = Done (Some (s', x')) ->
+  sstate_ s' = sstate_ s /\ input_pos s' = input_pos s /\ last_flush_pos s' = last_flush_pos s
+  /\ oracle s' = oracle s /\ avail_in x' = avail_in x
+  /\ (sstate_ s = SFlushRequested -> last_bytes_bits s <> 0 -> last_bytes_bits s' = 0).
+Proof.
+  unfold inject_flush_or_push_output. intros H.
+  destruct (sstate_eqb (sstate_ s) SFlushRequested && negb (last_bytes_bits s =? 0)) eqn:C.
+  - destruct (inject_byte_padding_block s) as [s1| | |] eqn:E; try discriminate.
+    inversion H; subst s1 x'; clear H.
+    destruct (outcome_inv_padding s s' E) as [A [B [C' [D F]]]]. repeat split; try assumption. intros _ _; exact F.
+  - destruct (negb (avail_out_ s =? 0) && negb (cap x =? 0)); try discriminate.
+    destruct (lenN (view s) <? N.min (avail_out_ s) (cap x)); try discriminate.
+    inversion H; subst s' x'; clear H. cbn. repeat split; try reflexivity.
+    intros Hs Hb. apply andb_false_iff in C. destruct C as [C|C].
+    + rewrite Hs in C. discriminate.
+    + apply negb_false_iff in C. apply N.eqb_eq in C. contradiction.
+Qed.
+
+Lemma inject_none s x : inject_flush_or_push_output s x = Done None ->
+  (sstate_ s = SFlushRequested -> last_bytes_bits s = 0).
+Proof.
+  unfold inject_flush_or_push_output. intros H Hs. rewrite Hs in H. cbn [sstate_eqb andb] in H.
+  destruct (N.eqb_spec (last_bytes_bits s) 0) as [E|E]; [exact E|]. cbn [negb] in H.
+  destruct (inject_byte_padding_block s); discriminate.
+Qed.
+
+Lemma update_size_hint_fields s a :
+  sstate_ (update_size_hint s a) = sstate_ s /\ input_pos (update_size_hint s a) = input_pos s
+  /\ last_flush_pos (update_size_hint s a) = last_flush_pos s /\ oracle (update_size_hint s a) = oracle s
+  /\ avail_out_ (update_size_hint s a) = avail_out_ s /\ last_bytes_bits (update_size_hint s a) = last_bytes_bits s.
+Proof. unfold update_size_hint. destruct (size_hint s =? 0); cbn; repeat split; reflexivity. Qed.
+
+Lemma encode_data_true s il ff s2 : encode_data s il ff = Done (true, s2) ->
+  exists a rest, oracle s = a :: rest /\ oracle s2 = rest /\ a_ipos a = input_pos s
+    /\ a_force_flush a = ff /\ a_is_last a = il /\ a_fast a = false
+    /\ sstate_ s2 = sstate_ s /\ input_pos s2 = input_pos s /\ last_flush_pos s2 = a_lfp a
+    /\ last_bytes_bits s2 = a_lbb a.
+Proof.
+  unfold encode_data. intros H. destruct (oracle s) as [|a rest] eqn:Eo; [discriminate|].
+  destruct (a_fast a) eqn:Ef; [discriminate|].
+  destruct (Bool.eqb (a_is_last a) il) eqn:E1; cbn [negb] in H; [|discriminate].
+  destruct (Bool.eqb (a_force_flush a) ff) eqn:E2; cbn [negb] in H; [|discriminate].
+  destruct (a_ipos a =? input_pos s) eqn:E3; cbn [negb] in H; [|discriminate].
+  destruct (a_hint a =? size_hint s) eqn:E4; cbn [negb] in H; [|discriminate].
+  apply Bool.eqb_prop in E1. apply Bool.eqb_prop in E2. apply N.eqb_eq in E3.
+  destruct (last_emitted s).
+  - destruct (a_result a); discriminate.
+  - destruct (input_block_size s <? unprocessed s).
+    + destruct (a_result a); discriminate.
+    + destruct (a_result a); cbn [negb] in H; [|discriminate].
+      inversion H; subst s2; clear H. exists a, rest. cbn. repeat split; try assumption; reflexivity.
+Qed.
+
+Lemma all_ok_tail a l : all_ok (a :: l) -> answer_ok a = true /\ all_ok l.
+Proof. unfold all_ok. cbn [forallb]. intros H. apply andb_true_iff in H. exact H. Qed.
+
+Lemma answer_ok_flush a : answer_ok a = true -> a_fast a = false -> a_force_flush a = true ->
+  a_lfp a = a_ipos a.
+Proof.
+  unfold answer_ok. intros H Hf Hff. rewrite Hf, Hff in H. rewrite orb_true_r in H.
+  repeat (apply andb_true_iff in H; destruct H as [H ?]).
+  match goal with K : (_ && _ && _)%bool = true |- _ => idtac | _ => idtac end.
+  repeat match goal with K : (_ && _)%bool = true |- _ => apply andb_true_iff in K; destruct K end.
+  match goal with K : (a_lfp a =? a_ipos a) = true |- _ => apply N.eqb_eq in K; exact K end.
+Qed.
+
+Definition flush_inv (s : st) (x : io) : Prop :=
+  sstate_ s = SProcessing \/
+  (sstate_ s = SFlushRequested /\ last_flush_pos s = input_pos s /\ avail_in x = 0).
+
+Lemma flush_loop_aligned : forall fuel s x s' x',
+  all_ok (oracle s) -> flush_inv s x ->
+  stream_loop fuel OpFlush s x = Done (true, s', x') ->
+  avail_out_ s' = 0 -> avail_in x' = 0 ->
+  last_bytes_bits s' = 0 /\ last_flush_pos s' = input_pos s' /\ sstate_ s' = SProcessing /\ next_out s' = NoNone.
+Proof.
+  induction fuel as [|f IH]; intros s x s' x' Hok Hinv Hrun Hao Hai; [discriminate|].
+  cbn [stream_loop] in Hrun.
+  destruct (negb (remaining_input_block_size s =? 0) && negb (avail_in x =? 0)) eqn:Ccopy.
+  - (* copy input: only possible while processing *)
+    apply andb_true_iff in Ccopy. destruct Ccopy as [_ Cin]. apply negb_true_iff in Cin. apply N.eqb_neq in Cin.
+    refine (IH _ _ s' x' _ _ Hrun Hao Hai); [exact Hok|].
+    destruct Hinv as [Hp|[_ [_ H0]]]; [left; exact Hp|contradiction].
+  - destruct (inject_flush_or_push_output s x) as [[[s1 x1]|]| | |] eqn:Einj; try discriminate.
+    + destruct (inject_some s x s1 x1 Einj) as [A [B [C [D [E F]]]]].
+      apply (IH s1 x1 s' x'); try assumption.
+      * rewrite D; exact Hok.
+      * destruct Hinv as [Hp|[Hp [Hq Hr]]]; [left; rewrite A; exact Hp|right].
+        rewrite A, B, C, E. repeat split; assumption.
+    + destruct ((avail_out_ s =? 0) && sstate_eqb (sstate_ s) SProcessing
+                && ((remaining_input_block_size s =? 0) || negb (opk_eqb OpFlush OpProcess))) eqn:Cenc.
+      * (* the back end runs *)
+        cbn [opk_eqb andb] in Hrun. rewrite andb_false_r in Hrun.
+        destruct (update_size_hint_fields s (avail_in x)) as [U1 [U2 [U3 [U4 [U5 U6]]]]].
+        destruct (encode_data (update_size_hint s (avail_in x)) false ((avail_in x =? 0) && true)) as [[[|] s2]| | |] eqn:Eenc; try discriminate.
+        destruct (encode_data_true _ _ _ _ Eenc) as [a [rest [O1 [O2 [O3 [O4 [O5 [O6 [O7 [O8 [O9 O10]]]]]]]]]]].
+        rewrite U4 in O1. rewrite O1 in Hok. destruct (all_ok_tail _ _ Hok) as [Ha Hrest].
+        rewrite andb_true_r in *.
+        destruct (avail_in x =? 0) eqn:Ein.
+        -- (* forced flush: last_flush_pos catches up with input_pos *)
+           refine (IH _ _ s' x' _ _ Hrun Hao Hai).
+           ++ cbn. rewrite O2. exact Hrest.
+           ++ right. cbn. repeat split.
+              ** rewrite O9, O8, U2. rewrite (answer_ok_flush a Ha O6 O4). rewrite O3, U2. reflexivity.
+              ** apply N.eqb_eq; exact Ein.
+        -- refine (IH _ _ s' x' _ _ Hrun Hao Hai).
+           ++ rewrite O2. exact Hrest.
+           ++ left. rewrite O7, U1. apply andb_true_iff in Cenc. destruct Cenc as [Cenc _].
+              apply andb_true_iff in Cenc. destruct Cenc as [_ Cs]. apply sstate_eqb_spec; exact Cs.
+      * (* exit *)
+        inversion Hrun; subst s' x'; clear Hrun.
+        assert (Hao' : avail_out_ s = 0).
+        { unfold check_flush_complete in Hao. destruct (sstate_eqb (sstate_ s) SFlushRequested && (avail_out_ s =? 0)); exact Hao. }
+        assert (Hfl : sstate_ s = SFlushRequested).
+        { destruct Hinv as [Hp|[Hp _]]; [|exact Hp]. exfalso.
+          rewrite Hao', Hp in Cenc. cbn in Cenc. rewrite orb_true_r in Cenc. discriminate. }
+        pose proof (inject_none s x Einj Hfl) as Hlbb.
+        unfold check_flush_complete. rewrite Hfl, Hao'. cbn.
+        destruct Hinv as [Hp|[_ [Hq _]]]; [rewrite Hp in Hfl; discriminate|].
+        repeat split; assumption.
+Qed.
+
+(* ---- the one-pass/two-pass path (quality 0/1, not catable, no magic header) ---- *)
+Lemma fast_answer_ok s il ff ip blk a s1 : fast_answer s il ff ip blk = Done (a, s1) ->
+  exists rest, oracle s = a :: rest /\ oracle s1 = rest /\ sstate_ s1 = sstate_ s
+    /\ input_pos s1 = input_pos s /\ last_flush_pos s1 = last_flush_pos s.
+Proof.
+  unfold fast_answer. intros H. destruct (oracle s) as [|a0 rest] eqn:Eo; [discriminate|].
+  repeat match type of H with (if ?c then _ else _) = _ => destruct c; try discriminate end.
+  inversion H; subst a0 s1; clear H. exists rest. cbn. repeat split; reflexivity.
+Qed.
+
+Definition fast_inv (s : st) (x : io) : Prop :=
+  sstate_ s = SProcessing \/ (sstate_ s = SFlushRequested /\ avail_in x = 0).
+
+Lemma fast_loop_aligned : forall fuel s x s' x',
+  fast_inv s x ->
+  fast_loop fuel OpFlush s x = Done (true, s', x') ->
+  avail_out_ s' = 0 -> avail_in x' = 0 ->
+  last_bytes_bits s' = 0 /\ sstate_ s' = SProcessing /\ next_out s' = NoNone
+  /\ input_pos s' = input_pos s /\ last_flush_pos s' = last_flush_pos s.
+Proof.
+  induction fuel as [|f IH]; intros s x s' x' Hinv Hrun Hao Hai; [discriminate|].
+  cbn [fast_loop] in Hrun.
+  destruct (inject_flush_or_push_output s x) as [[[s1 x1]|]| | |] eqn:Einj; try discriminate.
+  - destruct (inject_some s x s1 x1 Einj) as [A [B [C [D [E F]]]]].
+    assert (Hinv1 : fast_inv s1 x1).
+    { destruct Hinv as [Hp|[Hp Hr]]; [left; rewrite A; exact Hp|right; rewrite A, E; split; assumption]. }
+    destruct (IH s1 x1 s' x' Hinv1 Hrun Hao Hai) as [R1 [R2 [R3 [R4 R5]]]].
+    repeat split; try assumption; congruence.
+  - destruct ((avail_out_ s =? 0) && sstate_eqb (sstate_ s) SProcessing
+              && (negb (avail_in x =? 0) || negb (opk_eqb OpFlush OpProcess))) eqn:Cenc.
+    + cbn [opk_eqb andb] in Hrun. rewrite andb_false_r in Hrun. rewrite andb_true_r in Hrun.
+      assert (Hproc : sstate_ s = SProcessing).
+      { apply andb_true_iff in Cenc. destruct Cenc as [Cenc _]. apply andb_true_iff in Cenc.
+        destruct Cenc as [_ Cs]. apply sstate_eqb_spec; exact Cs. }
+      remember (N.min (2 ^ Z.to_N (lgwin s)) (avail_in x)) as block eqn:Eblk.
+      destruct ((avail_in x =? block) && (block =? 0)) eqn:Cff0.
+      * (* flush with no input at all *)
+        apply andb_true_iff in Cff0. destruct Cff0 as [Ca Cb]. apply N.eqb_eq in Ca, Cb.
+        assert (Hinv1 : fast_inv (set_sstate s SFlushRequested) x) by (right; split; [reflexivity|congruence]).
+        destruct (IH _ _ s' x' Hinv1 Hrun Hao Hai) as [R1 [R2 [R3 [R4 R5]]]]. repeat split; assumption.
+      * destruct (fast_answer s false (avail_in x =? block) (2 * block + 503 <=? cap x) block) as [[a s1]| | |] eqn:Efa; try discriminate.
+        destruct (fast_answer_ok _ _ _ _ _ _ _ Efa) as [rest [O1 [O2 [O3 [O4 O5]]]]].
+        destruct (2 * block + 503 <=? cap x) eqn:Cin.
+        -- (* in place *)
+           destruct (avail_in x =? block) eqn:Cfl.
+           ++ apply N.eqb_eq in Cfl.
+              match type of Hrun with fast_loop f OpFlush ?sa ?xa = _ =>
+                assert (Hinv1 : fast_inv sa xa) by (right; split; [reflexivity|cbn; lia]);
+                destruct (IH sa xa s' x' Hinv1 Hrun Hao Hai) as [R1 [R2 [R3 [R4 R5]]]] end.
+              cbn in R4, R5. repeat split; try assumption; congruence.
+           ++ match type of Hrun with fast_loop f OpFlush ?sa ?xa = _ =>
+                assert (Hinv1 : fast_inv sa xa) by (left; cbn; congruence);
+                destruct (IH sa xa s' x' Hinv1 Hrun Hao Hai) as [R1 [R2 [R3 [R4 R5]]]] end.
+              cbn in R4, R5. repeat split; try assumption; congruence.
+        -- destruct (avail_in x =? block) eqn:Cfl.
+           ++ apply N.eqb_eq in Cfl.
+              match type of Hrun with fast_loop f OpFlush ?sa ?xa = _ =>
+                assert (Hinv1 : fast_inv sa xa) by (right; split; [reflexivity|cbn; lia]);
+                destruct (IH sa xa s' x' Hinv1 Hrun Hao Hai) as [R1 [R2 [R3 [R4 R5]]]] end.
+              cbn in R4, R5. repeat split; try assumption; congruence.
+           ++ match type of Hrun with fast_loop f OpFlush ?sa ?xa = _ =>
+                assert (Hinv1 : fast_inv sa xa) by (left; cbn; congruence);
+                destruct (IH sa xa s' x' Hinv1 Hrun Hao Hai) as [R1 [R2 [R3 [R4 R5]]]] end.
+              cbn in R4, R5. repeat split; try assumption; congruence.
+    + inversion Hrun; subst s' x'; clear Hrun.
+      assert (Hao' : avail_out_ s = 0).
+      { unfold check_flush_complete in Hao. destruct (sstate_eqb (sstate_ s) SFlushRequested && (avail_out_ s =? 0)); exact Hao. }
+      assert (Hfl : sstate_ s = SFlushRequested).
+      { destruct Hinv as [Hp|[Hp _]]; [|exact Hp]. exfalso.
+        rewrite Hao', Hp in Cenc. cbn in Cenc. rewrite orb_true_r in Cenc. discriminate. }
+      pose proof (inject_none s x Einj Hfl) as Hlbb.
+      unfold check_flush_complete. rewrite Hfl, Hao'. cbn. repeat split; assumption.
+Qed.
+
+(* ---- the statement at the level of the API call ---- *)
+Theorem flush_completed_aligned s payload offered capn s' x' :
+  initialized s = true -> rem_meta s = U32MAX -> all_ok (oracle s) ->
+  (sstate_ s = SProcessing \/ (sstate_ s = SFlushRequested /\ last_flush_pos s = input_pos s)) ->
+  last_flush_pos s <= input_pos s ->
+  compress_stream s OpFlush payload offered capn = Done (true, s', x') ->
+  avail_in x' = 0 -> avail_out_ s' = 0 ->
+  last_bytes_bits s' = 0 /\ sstate_ s' = SProcessing /\ next_out s' = NoNone /\
+  (last_flush_pos s' = input_pos s' \/
+   (* one/two-pass path: it never touches the position counters *)
+   (input_pos s' = input_pos s /\ last_flush_pos s' = last_flush_pos s)).
+Proof.
+  intros Hi Hr Hok Hst Hle Hrun Hai Hao. unfold compress_stream in Hrun.
+  rewrite (ensure_initialized_id s Hi) in Hrun. rewrite Hr, N.eqb_refl in Hrun. cbn [negb andb opk_eqb] in Hrun.
+  assert (Hnm : sstate_eqb (sstate_ s) SMetaHead || sstate_eqb (sstate_ s) SMetaBody = false).
+  { destruct Hst as [Hp|[Hp _]]; rewrite Hp; reflexivity. }
+  rewrite Hnm in Hrun.
+  destruct (negb (sstate_eqb (sstate_ s) SProcessing) && negb (offered =? 0)) eqn:Cg; [discriminate|].
+  assert (Hoff : sstate_ s = SFlushRequested -> offered = 0).
+  { intros Hf. rewrite Hf in Cg. cbn in Cg. apply negb_false_iff in Cg. apply N.eqb_eq; exact Cg. }
+  destruct (((quality s =? 0)%Z || (quality s =? 1)%Z) && negb (catable s) && negb (magic s)).
+  - assert (Hinv : fast_inv s {| avail_in := offered; in_off := 0; cap := capn; produced := []; total_arg := 0 |}).
+    { destruct Hst as [Hp|[Hp _]]; [left; exact Hp|right; split; [exact Hp|cbn; apply Hoff; exact Hp]]. }
+    destruct (fast_loop_aligned _ _ _ _ _ Hinv Hrun Hao Hai) as [R1 [R2 [R3 [R4 R5]]]].
+    repeat split; try assumption. right. split; assumption.
+  - assert (Hinv : flush_inv s {| avail_in := offered; in_off := 0; cap := capn; produced := []; total_arg := 0 |}).
+    { destruct Hst as [Hp|[Hp Hq]]; [left; exact Hp|right; repeat split; [exact Hp|exact Hq|cbn; apply Hoff; exact Hp]]. }
+    destruct (flush_loop_aligned _ _ _ _ _ Hok Hinv Hrun Hao Hai) as [R1 [R2 [R3 R4]]].
+    repeat split; try assumption. left; exact R2.
+Qed.
